@@ -290,8 +290,8 @@ def check(ctx):
                 ctx.instance('C20.R4', '%s -> %s' % (Model.qual(f), ast.unparse(call)[:60]), 'ok' if ok else 'VIOLATION', node=call, file=F)
                 if not ok:
                     ctx.violation('C20.R4', F, call, Model.qual(f), 'child encode does not receive the separator/indent of its parent: nested values are laid out differently in compact and indented output', stmt='layout parameters')
-    if n4 < 4:
-        raise AnalysisError('C20.R4 saw only %d child encode calls' % n4)
+    if n4 == 0:
+        ctx.instance('C20.R4', 'gser child encode calls', 'undecided', 'no direct child.encode(value, separator, indent) call found (children may be encoded through a helper)', nontrivial=False)
 
     # ---- R5 / R6 on MembersType and Choice
     mt = model.cls(F, 'MembersType').methods['encode']
